@@ -148,3 +148,27 @@ package cli
 //@ before Total#2 assert same(arg0, records)
 //@ before ShouldTotalSum#2 assert same(arg0, records)
 //@ ensures true
+
+// json.go / tags.go — the same glue for `klog json` (property C20) and `klog tags` (property C14), cuts only: the
+// records handed to the JSON encoder are the ones read, closed by --now, filtered and sorted - nothing else - and come
+// without errors; on parser errors the encoder gets the errors and no records. The tag statistics are computed over
+// exactly the filtered records that --now was applied to.
+//@ func (*Json).Run
+//@ requires opt != nil && nonnil(ctx)
+//@ noframe
+//@ cutsonly
+//@ before ToJson#1 assert len(arg0) == 0 && same(arg1, parserErrs.All())
+//@ before ApplyNow bind closed = arg2
+//@ before ApplyNow assert same(arg2, records)
+//@ before ApplyFilter assert same(arg2, closed)
+//@ before ToJson#2 assert same(arg0, records) && len(arg1) == 0
+//@ ensures true
+
+//@ func (*Tags).Run
+//@ requires opt != nil && nonnil(ctx)
+//@ noframe
+//@ cutsonly
+//@ before ApplyNow bind closed = arg2
+//@ before ApplyNow assert same(arg2, records)
+//@ before AggregateTotalsByTags assert same(arg0, closed) && same(arg0, records)
+//@ ensures true
